@@ -81,7 +81,7 @@ func (c *Ctx) Emit(cs Case) {
 }
 
 // Count increments a distribution counter.
-func (c *Ctx) Count(key string) { c.dist[key]++ }
+func (c *Ctx) Count(key string)         { c.dist[key]++ }
 func (c *Ctx) CountN(key string, n int) { c.dist[key] += n }
 
 // Meta sets a key of meta.json (run_module, rule, exhaustive, ...).
@@ -155,3 +155,21 @@ func SortedKeys[V any](m map[string]V) []string {
 
 // Pick returns a random element.
 func Pick[T any](r *rand.Rand, xs []T) T { return xs[r.Intn(len(xs))] }
+
+// ReplayCases loads the cases of a replay file (see bin/check write_replay).
+func (c *Ctx) ReplayCases() ([]Case, error) {
+	if c.Replay == "" {
+		return nil, nil
+	}
+	b, err := os.ReadFile(c.Replay)
+	if err != nil {
+		return nil, err
+	}
+	var r struct {
+		Cases []Case `json:"cases"`
+	}
+	if err := json.Unmarshal(b, &r); err != nil {
+		return nil, err
+	}
+	return r.Cases, nil
+}
